@@ -15,7 +15,8 @@ for id in $ids; do
   git -C /repo apply $patch
   res="{\"seed\":\"$id\",\"patch_used\":\"$(basename $patch)\",\"repo_head\":\"$(git -C /repo rev-parse --short HEAD)\",\"checks\":{"
   first=1
-  for c in $prop ${EXTRA:-}; do
+  cross=""; [ -f $d/cross_check.txt ] && cross=$(cat $d/cross_check.txt)   # seeds that only another property's check catches
+  for c in $prop ${EXTRA:-} $cross; do
     out=$(./check $c 2>&1); rc=$?
     nv=$(echo "$out" | grep -c '^VIOLATION')
     top=$(echo "$out" | grep -E "^ +[0-9]+ x " | head -3 | sed 's/  e.g. tags=.*//; s/^ *//' | tr '\n' ';' | sed 's/"/\\"/g')
